@@ -24,7 +24,7 @@ let gen st tier =
   let encs = List.map (fun s -> Enc (LString (bs s))) int_strings @ List.init (1500 * k) (fun _ -> Enc (gen_logical st)) in
   let decs = List.init (1200 * k) (fun _ -> gen_compact st) in
   let files = List.init (200 * k) (fun _ ->
-    File (List.init (rnd_int st 6) (fun _ -> (rnd_pick st [ 0; 0; 1; 7; 300 ], gen_str st, rnd_pick st [ 0; 0; 1600000000000 + rnd_int st 1000 ], gen_logical st)))) in
+    File (List.init (rnd_int st 6) (fun _ -> (rnd_pick st [ 0; 0; 1; 7; 300 ], gen_str st, rnd_pick st [ 0; 0; 1600000000000 + rnd_int st 1000; 1; max_int (* 2^62-1 *); min_int (* stands for 2^64-2^62 *); -1 (* 2^64-1 *); - (1 + rnd_int st 100000) ], gen_logical st)))) in
   encs @ decs @ files
 
 (* F23 witness: a zipmap value of 253 bytes or more (Redis: 254 + LE32 length) *)
@@ -34,7 +34,7 @@ let corpus =
          Some (LHash [ (bs "k", bs (String.make 300 'v')) ])) ]
 
 let payload t body = string_of_bytes (create_value_dump (byte_of_char (Char.chr t)) (bs body))
-let obj_str (db, key, exp, v) = Printf.sprintf "%d;%s;%d;%s" db (hexs key) exp (show_l v)
+let obj_str (db, key, exp, v) = Printf.sprintf "%d;%s;%s;%s" db (hexs key) (u64_str exp) (show_l v)
 let to_line = function
   | Enc v -> "enc " ^ show_l v
   | Dec (_, t, body, _) -> "dec " ^ hexs (payload t body)
@@ -80,7 +80,7 @@ let judge c obs =
              model impl "decoded value differs from the logical value Redis materialises from this encoding"
        | _ -> if impl = model then Agree else fail "diff" "decode-model" model impl "")
   | File objs ->
-      let img = encode_file_objs fmt_g17 (List.map (fun (db, key, exp, v) -> (((n_of_int db, bs key), n_of_int exp), v)) objs) in
+      let img = encode_file_objs fmt_g17 (List.map (fun (db, key, exp, v) -> (((n_of_int db, bs key), n_of_u64 exp), v)) objs) in
       let recs = match load_all hash_chunk_limit img with
         | Loaded es -> "ok " ^ (if es = [] then "none" else String.concat " " (List.map (fun e ->
               Printf.sprintf "%d;%s;%s;%s" (int_of_n e.e_db) (hex_of_bytes e.e_key) (decimal_of_n e.e_expire)
